@@ -673,6 +673,12 @@ def sp_call_result(interp, st, args, kwargs, node):
     return ev[args[1]][4]
 
 
+def sp_same_pixel(interp, st, args, kwargs, node):
+    """the pixel (p, q) of two (H, W, 3) images has the same colour"""
+    a, b, p, q = args
+    return b_and(*[M.s_cmp(ast.Eq(), M.getitem(interp, st, a, (p, q, c), node), M.getitem(interp, st, b, (p, q, c), node)) for c in range(3)])
+
+
 def sp_has_key(interp, st, args, kwargs, node):
     return isinstance(args[0], dict) and args[1] in args[0]
 
@@ -685,6 +691,7 @@ SPEC_FUNCTIONS = {
     "rgb_is": sp_rgb_is,
     "has_field": sp_has_field,
     "has_key": sp_has_key,
+    "same_pixel": sp_same_pixel,
     "n_calls": sp_n_calls,
     "call_receiver": sp_call_receiver,
     "call_arg": sp_call_arg,
